@@ -404,6 +404,21 @@ fn c06(tier: Tier, seed: u64) -> i32 {
 	ctx.require_label("panic_in_scoped", 50);
 	ctx.require_label("forget_", 50);
 	ctx.require_label("try_failed", 50);
+	// the key after a raw lock operation panicked: whatever the call does on
+	// its way out, the key it was given is dropped or handed back, not lost
+	// (C12's fault enumeration, read by the key model)
+	{
+		let n = tier.pick(30_000, 800_000);
+		ctx.search("seq-key-after-raw-faults", n, 160, |bytes, want| {
+			let mut rep = c12_eval_props(bytes, want, &["C06"]);
+			let keep: Vec<Finding> = rep.violations.drain(..).filter(|f| f.prop == "C06").collect();
+			if keep.is_empty() {
+				rep.replay = None;
+			}
+			rep.violations = keep;
+			rep
+		});
+	}
 	ctx.require_label("park_drop", 50);
 	ctx.require_label("park_apart", 50);
 	ctx.finish()
@@ -1345,6 +1360,12 @@ fn retry_rolled_back(case: &ConcCase, r: &RunResult) -> bool {
 
 /// one base case of C12 with every fault plan (also the body of the fuzz target)
 pub fn c12_eval(bytes: &[u8], want: bool) -> CaseReport {
+	c12_eval_props(bytes, want, &[])
+}
+
+/// The fault enumeration; `also` names further properties whose findings (made
+/// by the interpreter's own oracles during the faulted runs) are collected.
+pub fn c12_eval_props(bytes: &[u8], want: bool, also: &[&str]) -> CaseReport {
 	let mut src = Src::new(bytes);
 	let base = gen_c12_base(&mut src);
 	let (nops, r0) = count_ops(&base);
@@ -1411,7 +1432,7 @@ pub fn c12_eval(bytes: &[u8], want: bool) -> CaseReport {
 		let r = run_seq(&case, FAULT_OPTS);
 		rep.extra_evals += 1;
 		let mut f = c12_findings(&case, &base.api, &base.kind, &r);
-		f.extend(r.findings.iter().filter(|f| f.prop == "C12" || f.prop == "PANIC").cloned());
+		f.extend(r.findings.iter().filter(|f| f.prop == "C12" || f.prop == "PANIC" || also.contains(&f.prop)).cloned());
 		if let Some((_, _, op, _)) = r.fault_fired.first() {
 			labels.insert(format!("c12.fault.{}", op.short()));
 			if !case.fault.as_ref().unwrap().plan.persistent.is_empty() {
